@@ -16,6 +16,7 @@ import GE.Model.Escape
 import GE.Model.Mixture
 import GE.Model.ExprParse
 import GE.Model.TagScope
+import GE.Model.Rlm
 import GE.Model.ExprStr
 import GE.Model.BindingMap
 import GE.Model.CssIO
@@ -237,6 +238,19 @@ def step (fs : List String) : String :=
           esc (String.intercalate "\x01" adv)
       | _, _ => "bad-tree"
     | _ => "bad-sexp"
+  | ["rlm", oldKeys, newKeys, tree] =>
+    -- keys separated by U+0001 (a list may be empty: "-"); tree: one letter per position: n none, a all, k sub(key marked), s sub(key not marked)
+    let split (x : String) : List String := if x == "-" then [] else x.splitOn "\x01"
+    let ok := split oldKeys
+    let nk := split newKeys
+    let tr : List GE.Rlm.Mark := tree.toList.map fun c => if c == 'a' then .all else if c == 'k' then .sub true else if c == 's' then .sub false else .none
+    let ms := GE.Rlm.marks ok nk tr
+    let showM (m : GE.Rlm.Mark) : String := match m with | .none => "none" | .all => "all" | .sub _ => "sub"
+    let items := (List.range nk.length).map fun i =>
+      match GE.Rlm.reuse ok nk i with
+      | some j => s!"{j}:{showM (ms[i]?.getD .none)}"
+      | none => "new"
+    esc (String.intercalate " " items) ++ "\t" ++ esc (String.intercalate "\x01" (GE.Rlm.uniq nk))
   | ["mix_print", pieces] =>
     -- value printer model on pieces `T…` / `B…` separated by U+0001
     let ps : List GE.Mix.Piece := (if pieces.isEmpty then [] else pieces.splitOn "\x01").filterMap fun x =>
